@@ -119,6 +119,13 @@ func (g *gen) stopEarly() bool {
 	return false
 }
 
+func (g *gen) lastOps(n int) []string {
+	if len(g.ops) < n {
+		n = len(g.ops)
+	}
+	return append([]string{}, g.ops[len(g.ops)-n:]...)
+}
+
 func okval(out string) (string, bool) {
 	if strings.HasPrefix(out, "ok ") {
 		return out[3:], true
@@ -162,7 +169,29 @@ func genMain(args []string) {
 		// operation in execOp); make that unmistakable in the message the check prints
 		defer func() {
 			if r := recover(); r != nil {
-				fmt.Fprintf(os.Stderr, "HARNESS-INTERNAL-ERROR in generator %s (seed %d): %v\n%s\n", prop, seed, r, debug.Stack())
+				stack := string(debug.Stack())
+				// where did it start? the frame just below the runtime's panic frames
+				origin := ""
+				lines := strings.Split(stack, "\n")
+				for i, l := range lines {
+					if strings.HasPrefix(l, "panic(") {
+						for _, m := range lines[i+1:] {
+							if !strings.HasPrefix(m, "\t") && !strings.HasPrefix(m, "runtime.") && m != "" {
+								origin = m
+								break
+							}
+						}
+						break
+					}
+				}
+				if strings.HasPrefix(origin, "github.com/theQRL/go-qrllib/") {
+					// a direct (unguarded) call into the library panicked: that is an observation about the library
+					// on inputs a generator considers valid, not a defect of the harness
+					g.check(false, "library-panic", fmt.Sprintf("the library panicked on a call the generator makes with valid inputs: %v (in %s)", r, trunc(origin, 120)), g.lastOps(3)...)
+					g.counts["generator-cut-short-by-library-panic"] = 1
+					return
+				}
+				fmt.Fprintf(os.Stderr, "HARNESS-INTERNAL-ERROR in generator %s (seed %d): %v\n%s\n", prop, seed, r, stack)
 				os.Exit(3)
 			}
 		}()
